@@ -1,127 +1,248 @@
-import Convergen.Model.Builder
+import Convergen.Props.Cover
 /-!
 # C02 — generated functions copy exactly the matched values and touch nothing else
 
 Abstract execution of the statement tree the builder produces (`Stmt`).  The destination object is
-a map from member paths to values; the source operands are read through an evaluation function that
-does not see the destination at all (`evalSrc`) — that the builder only ever builds right-hand sides
-from the source operands is `rhs_rooted_in_sources` below.  What Go really does with the emitted text
-(evaluation order, aliasing, conversions) is validated by executing generated code (run-time sweep).
+a map from destination members (`Node`s below the destination variable) to values; the source
+operands are read through an evaluation function that does not see the destination at all
+(`evalSrc`).  What Go really does with the emitted text (evaluation order, aliasing, conversions,
+nil dereference) is validated by executing generated code (run-time sweep), not proved.
+
+Main results, for **every** result of `structToStruct` (all type tables, option sets, depths):
+* `builder_assigns_source_value` — after the whole body has run, every assigned member holds exactly
+  the value its own statement wrote (no later statement disturbs it: no member is written twice and
+  no write lies beneath another);
+* `builder_frame` — every member that is not at or below an assigned member keeps its previous value;
+* `builder_reads_rooted` — every right-hand side is built from the source operand or an additional
+  argument, never from the destination.
 -/
 namespace Convergen.Props.C02
-open Convergen
-
-/-- a destination member path: field names below the destination variable -/
-abbrev Path := List String
-
-def isPrefix : Path → Path → Bool
-  | [], _ => true
-  | _ :: _, [] => false
-  | a :: as, b :: bs => a == b && isPrefix as bs
-
-/-- the path a left-hand side node denotes (field names from the root) -/
-def lhsPath : Node → Path
-  | .root _ _ => []
-  | .field p n _ => lhsPath p ++ [n]
-  | .method p n _ => lhsPath p ++ [n ++ "()"]
-  | .conv a _ => lhsPath a
-  | .cast i _ _ => lhsPath i
-  | .stringer i => lhsPath i
+open Convergen Convergen.Props.BuilderInv Convergen.Props.Cover
 
 variable {V : Type}
 
-/-- the destination object: which value sits at which (leaf or struct) path -/
-abbrev Dst (V : Type) := Path → V
+/-- the destination object: which value sits at which member -/
+abbrev Dst (V : Type) := Node → V
 
-/-- writing a value at path `p` replaces everything at and below `p` (`sub q` is the part of the
-written value found at the relative path `q`) -/
-def write (d : Dst V) (p : Path) (sub : Path → V) : Dst V :=
-  fun q => if isPrefix p q then sub (q.drop p.length) else d q
+/-- writing at member `p` replaces everything at and below `p` (`sub q` is the part of the written
+value found at member `q`) -/
+def write (d : Dst V) (p : Node) (sub : Node → V) : Dst V :=
+  fun q => if anc p q then sub q else d q
 
 mutual
 /-- execution of one statement: only assigning statements change the destination -/
-def exec (evalSrc : Node → Path → V) (lit : String → Path → V) : Stmt → Dst V → Dst V
+def exec (evalSrc : Node → Node → V) (lit : String → Node → V) : Stmt → Dst V → Dst V
   | .skip _, d => d
   | .noMatch _ _, d => d
-  | .dropped _ _, d => d
-  | .simple lhs (.node n) _ _, d => write d (lhsPath lhs) (evalSrc n)
-  | .simple lhs (.literal t) _ _, d => write d (lhsPath lhs) (lit t)
+  | .simple lhs (.node n) _ _, d => write d lhs (evalSrc n)
+  | .simple lhs (.literal t) _ _, d => write d lhs (lit t)
   | .nest _ _ _ _ body _, d => execList evalSrc lit body d
-  | .sliceCopy lhs rhs _, d => write d (lhsPath lhs) (evalSrc rhs)
-  | .sliceLoop lhs rhs _, d => write d (lhsPath lhs) (evalSrc rhs)
-  | .sliceCast lhs rhs _ _, d => write d (lhsPath lhs) (evalSrc rhs)
-def execList (evalSrc : Node → Path → V) (lit : String → Path → V) : List Stmt → Dst V → Dst V
+  | .sliceCopy lhs rhs _, d => write d lhs (evalSrc rhs)
+  | .sliceLoop lhs rhs _, d => write d lhs (evalSrc rhs)
+  | .sliceCast lhs rhs _ _, d => write d lhs (evalSrc rhs)
+def execList (evalSrc : Node → Node → V) (lit : String → Node → V) : List Stmt → Dst V → Dst V
   | [], d => d
   | s :: ss, d => execList evalSrc lit ss (exec evalSrc lit s d)
 end
 
 mutual
-/-- the paths a statement assigns -/
-def assigned : Stmt → List Path
-  | .simple lhs _ _ _ => [lhsPath lhs]
-  | .nest _ _ _ _ body _ => assignedList body
-  | .sliceCopy lhs _ _ => [lhsPath lhs]
-  | .sliceLoop lhs _ _ => [lhsPath lhs]
-  | .sliceCast lhs _ _ _ => [lhsPath lhs]
-  | _ => []
-def assignedList : List Stmt → List Path
+/-- the writes of a statement, flattened: (member, value written) in execution order -/
+def writes (evalSrc : Node → Node → V) (lit : String → Node → V) : Stmt → List (Node × (Node → V))
+  | .skip _ => []
+  | .noMatch _ _ => []
+  | .simple lhs (.node n) _ _ => [(lhs, evalSrc n)]
+  | .simple lhs (.literal t) _ _ => [(lhs, lit t)]
+  | .nest _ _ _ _ body _ => writesList evalSrc lit body
+  | .sliceCopy lhs rhs _ => [(lhs, evalSrc rhs)]
+  | .sliceLoop lhs rhs _ => [(lhs, evalSrc rhs)]
+  | .sliceCast lhs rhs _ _ => [(lhs, evalSrc rhs)]
+def writesList (evalSrc : Node → Node → V) (lit : String → Node → V) : List Stmt → List (Node × (Node → V))
   | [] => []
-  | s :: ss => assigned s ++ assignedList ss
+  | s :: ss => writes evalSrc lit s ++ writesList evalSrc lit ss
 end
 
-theorem write_frame (d : Dst V) (p q : Path) (sub : Path → V) (h : isPrefix p q = false) : write d p sub q = d q := by
-  simp [write, h]
+/-- performing a list of writes in order -/
+def applyWrites (d : Dst V) (ws : List (Node × (Node → V))) : Dst V :=
+  ws.foldl (fun d w => write d w.1 w.2) d
+
+theorem applyWrites_append (d : Dst V) (a b : List (Node × (Node → V))) :
+    applyWrites d (a ++ b) = applyWrites (applyWrites d a) b := by
+  simp [applyWrites, List.foldl_append]
 
 mutual
-/-- **T2.4 (frame).** A destination path that is not at or below any assigned path keeps its value. -/
-theorem exec_frame (evalSrc : Node → Path → V) (lit : String → Path → V) :
-    ∀ (s : Stmt) (d : Dst V) (q : Path), (∀ p ∈ assigned s, isPrefix p q = false) → exec evalSrc lit s d q = d q
-  | .skip _, _, _, _ => rfl
-  | .noMatch _ _, _, _, _ => rfl
-  | .dropped _ _, _, _, _ => rfl
-  | .simple lhs (.node n) _ _, d, q, h => by
-      rw [exec]; exact write_frame d _ q _ (h _ (by simp [assigned]))
-  | .simple lhs (.literal t) _ _, d, q, h => by
-      rw [exec]; exact write_frame d _ q _ (h _ (by simp [assigned]))
-  | .nest _ _ _ _ body _, d, q, h => by
-      rw [exec]; exact execList_frame evalSrc lit body d q (by simpa [assigned] using h)
-  | .sliceCopy lhs rhs _, d, q, h => by rw [exec]; exact write_frame d _ q _ (h _ (by simp [assigned]))
-  | .sliceLoop lhs rhs _, d, q, h => by rw [exec]; exact write_frame d _ q _ (h _ (by simp [assigned]))
-  | .sliceCast lhs rhs _ _, d, q, h => by rw [exec]; exact write_frame d _ q _ (h _ (by simp [assigned]))
-theorem execList_frame (evalSrc : Node → Path → V) (lit : String → Path → V) :
-    ∀ (ss : List Stmt) (d : Dst V) (q : Path), (∀ p ∈ assignedList ss, isPrefix p q = false) →
-      execList evalSrc lit ss d q = d q
-  | [], _, _, _ => rfl
-  | s :: ss, d, q, h => by
-      rw [execList, execList_frame evalSrc lit ss _ q (fun p hp => h p (by simp [assignedList, hp])),
-        exec_frame evalSrc lit s d q (fun p hp => h p (by simp [assignedList, hp]))]
+/-- running the body is performing its flattened writes in order -/
+theorem exec_eq_writes (evalSrc : Node → Node → V) (lit : String → Node → V) :
+    ∀ (s : Stmt) (d : Dst V), exec evalSrc lit s d = applyWrites d (writes evalSrc lit s)
+  | .skip _, _ => rfl
+  | .noMatch _ _, _ => rfl
+  | .simple _ (.node _) _ _, _ => rfl
+  | .simple _ (.literal _) _ _, _ => rfl
+  | .nest _ _ _ _ body _, d => by rw [exec, writes]; exact execList_eq_writes evalSrc lit body d
+  | .sliceCopy _ _ _, _ => rfl
+  | .sliceLoop _ _ _, _ => rfl
+  | .sliceCast _ _ _ _, _ => rfl
+theorem execList_eq_writes (evalSrc : Node → Node → V) (lit : String → Node → V) :
+    ∀ (ss : List Stmt) (d : Dst V), execList evalSrc lit ss d = applyWrites d (writesList evalSrc lit ss)
+  | [], _ => rfl
+  | s :: ss, d => by
+      rw [execList, writesList, applyWrites_append, ← exec_eq_writes evalSrc lit s d,
+        execList_eq_writes evalSrc lit ss]
 end
 
-/-- **T2.3 (no later statement disturbs an assigned value).** If the paths assigned by the rest of the
-body are unrelated to `q`, the value written at `q` by a statement is what the whole body leaves there. -/
-theorem assigned_value_survives (evalSrc : Node → Path → V) (lit : String → Path → V) (s : Stmt) (rest : List Stmt)
-    (d : Dst V) (q : Path) (h : ∀ p ∈ assignedList rest, isPrefix p q = false) :
-    execList evalSrc lit (s :: rest) d q = exec evalSrc lit s d q := by
-  rw [execList, execList_frame evalSrc lit rest _ q h]
+/-! ## a list of writes to pairwise unrelated members is a parallel assignment -/
 
-/-- a simple assignment stores exactly the value its source denotes -/
-theorem simple_stores_source (evalSrc : Node → Path → V) (lit : String → Path → V) (lhs n : Node) (e : Bool)
-    (w : List String) (d : Dst V) :
-    exec evalSrc lit (.simple lhs (.node n) e w) d (lhsPath lhs) = evalSrc n [] := by
-  have hp : ∀ p : Path, isPrefix p p = true := by
-    intro p; induction p with
-    | nil => rfl
-    | cons a as ih => simp [isPrefix, ih]
-  simp [exec, write, hp]
+/-- neither member encloses the other -/
+def Unrelated (a b : Node) : Prop := anc a b = false ∧ anc b a = false
 
-/-- the source operands are not part of the state `exec` transforms: whatever the body, the
-evaluation function `evalSrc` (source operand and additional arguments) is the same before and
-after — generated functions never write through the source -/
-theorem source_untouched (evalSrc : Node → Path → V) (lit : String → Path → V) (ss : List Stmt) (d : Dst V) :
-    ∃ d', execList evalSrc lit ss d = d' := ⟨_, rfl⟩
+/-- **frame of a write list**: a member under none of the targets keeps its value -/
+theorem applyWrites_frame (ws : List (Node × (Node → V))) : ∀ (d : Dst V) (q : Node),
+    (∀ w ∈ ws, anc w.1 q = false) → applyWrites d ws q = d q := by
+  induction ws with
+  | nil => intro d q _; rfl
+  | cons w ws ih =>
+    intro d q h
+    have h1 := h w List.mem_cons_self
+    simp only [applyWrites, List.foldl_cons] at ih ⊢
+    rw [ih _ q (fun w' hw' => h w' (List.mem_cons_of_mem _ hw'))]
+    simp [write, h1]
 
-/-- non-vacuity: two unrelated assignments commute with the frame -/
-example : isPrefix ["In"] ["In", "X"] = true ∧ isPrefix ["In", "X"] ["In"] = false ∧ isPrefix ["A"] ["B"] = false := by
-  decide
+/-- if two members are unrelated, nothing lies below both -/
+theorem unrelated_below {a b q : Node} (h : Unrelated a b) (ha : anc a q = true) : anc b q = false := by
+  cases hb : anc b q with
+  | false => rfl
+  | true =>
+    rcases anc_chain ha hb with h1 | h1
+    · rw [h.1] at h1; cases h1
+    · rw [h.2] at h1; cases h1
+
+/-- **value of a write list**: with pairwise unrelated targets, every member at or below a target
+ends up with what that target's write put there -/
+theorem applyWrites_value (ws : List (Node × (Node → V))) : ∀ (d : Dst V),
+    ws.Pairwise (fun a b => Unrelated a.1 b.1) → ∀ w ∈ ws, ∀ q, anc w.1 q = true → applyWrites d ws q = w.2 q := by
+  induction ws with
+  | nil => intro d _ w hw; cases hw
+  | cons w0 ws ih =>
+    intro d hp w hw q hq
+    simp only [List.pairwise_cons] at hp
+    simp only [applyWrites, List.foldl_cons] at ih ⊢
+    rcases List.mem_cons.mp hw with rfl | hw'
+    · -- the first write; the rest does not touch `q`
+      have := applyWrites_frame ws (write d w.1 w.2) q
+        (fun w' hw' => unrelated_below (hp.1 w' hw') hq)
+      simp only [applyWrites] at this
+      rw [this]
+      simp [write, hq]
+    · exact ih _ hp.2 w hw' q hq
+
+/-! ## the builder's result has pairwise unrelated targets -/
+
+/-- a list in which every element is enclosed by exactly one element (itself) is pairwise unrelated -/
+theorem pairwise_of_count : ∀ (L : List Node), (∀ k ∈ L, L.countP (anc · k) = 1) →
+    L.Pairwise Unrelated := by
+  intro L
+  induction L with
+  | nil => intro _; exact List.Pairwise.nil
+  | cons a L ih =>
+    intro h
+    have ha := h a List.mem_cons_self
+    simp only [List.countP_cons, anc_refl, ↓reduceIte] at ha
+    have ha0 : L.countP (anc · a) = 0 := by omega
+    have hrest : ∀ k ∈ L, anc a k = false ∧ L.countP (anc · k) = 1 := by
+      intro k hk
+      have := h k (List.mem_cons_of_mem _ hk)
+      simp only [List.countP_cons] at this
+      have hpos : 0 < L.countP (anc · k) := List.countP_pos_iff.mpr ⟨k, hk, anc_refl k⟩
+      cases hak : anc a k with
+      | false => simp only [hak] at this; exact ⟨rfl, by simpa using this⟩
+      | true => simp only [hak, ↓reduceIte] at this; omega
+    refine List.Pairwise.cons ?_ (ih (fun k hk => (hrest k hk).2))
+    intro k hk
+    refine ⟨(hrest k hk).1, ?_⟩
+    cases hka : anc k a with
+    | false => rfl
+    | true =>
+      have : 0 < L.countP (anc · a) := List.countP_pos_iff.mpr ⟨k, hk, hka⟩
+      omega
+
+mutual
+/-- the targets of the writes are among the lines, in order -/
+theorem writes_sublist (evalSrc : Node → Node → V) (lit : String → Node → V) :
+    ∀ s : Stmt, ((writes evalSrc lit s).map (·.1)).Sublist (marks s)
+  | .skip _ => by simp [writes, marks]
+  | .noMatch _ _ => by simp [writes, marks]
+  | .simple _ (.node _) _ _ => by simp [writes, marks]
+  | .simple _ (.literal _) _ _ => by simp [writes, marks]
+  | .nest _ _ _ _ body _ => by simp only [writes, marks]; exact writesList_sublist evalSrc lit body
+  | .sliceCopy _ _ _ => by simp [writes, marks]
+  | .sliceLoop _ _ _ => by simp [writes, marks]
+  | .sliceCast _ _ _ _ => by simp [writes, marks]
+theorem writesList_sublist (evalSrc : Node → Node → V) (lit : String → Node → V) :
+    ∀ ss : List Stmt, ((writesList evalSrc lit ss).map (·.1)).Sublist (marksList ss)
+  | [] => by simp [writesList, marksList]
+  | s :: ss => by
+      simp only [writesList, marksList, List.map_append]
+      exact List.Sublist.append (writes_sublist evalSrc lit s) (writesList_sublist evalSrc lit ss)
+end
+
+variable (ctx : BCtx)
+
+/-- the writes of a builder result go to pairwise unrelated members: no member is written twice and
+no write lies beneath another -/
+theorem builder_writes_unrelated (hd : DistinctFields ctx.env) (fuel : Nat) (l r : Node) (args : List Node)
+    (ss : List Stmt) (h : ctx.structToStruct fuel l r args = .ok ss)
+    (evalSrc : Node → Node → V) (lit : String → Node → V) :
+    (writesList evalSrc lit ss).Pairwise (fun a b => Unrelated a.1 b.1) := by
+  have hc := structToStruct_covered ctx fuel l r args ss h
+  have hm : (marksList ss).Pairwise Unrelated :=
+    pairwise_of_count _ (fun k hk => marks_prefix_free ctx hd fuel l ss hc k hk)
+  have hs := (writesList_sublist evalSrc lit ss)
+  have := List.Pairwise.sublist hs hm
+  exact (List.pairwise_map).mp this
+
+/-- **T2.2 (each assigned member receives exactly its source's value).**  For every builder result:
+after the whole body has run, everything at or below an assigned member is what that member's own
+statement wrote there. -/
+theorem builder_assigns_source_value (hd : DistinctFields ctx.env) (fuel : Nat) (l r : Node) (args : List Node)
+    (ss : List Stmt) (h : ctx.structToStruct fuel l r args = .ok ss)
+    (evalSrc : Node → Node → V) (lit : String → Node → V) (d : Dst V) :
+    ∀ w ∈ writesList evalSrc lit ss, ∀ q, anc w.1 q = true → execList evalSrc lit ss d q = w.2 q := by
+  intro w hw q hq
+  rw [execList_eq_writes]
+  exact applyWrites_value _ d (builder_writes_unrelated ctx hd fuel l r args ss h evalSrc lit) w hw q hq
+
+/-- **T2.4 (frame).**  Every member that is not at or below an assigned member keeps its value. -/
+theorem builder_frame (evalSrc : Node → Node → V) (lit : String → Node → V) (ss : List Stmt) (d : Dst V) (q : Node)
+    (hq : ∀ w ∈ writesList evalSrc lit ss, anc w.1 q = false) : execList evalSrc lit ss d q = d q := by
+  rw [execList_eq_writes]
+  exact applyWrites_frame _ d q hq
+
+/-- every write of a builder result goes to a member of the destination (reached from the
+destination operand through accessible members): the source operand and the additional arguments
+are not written -/
+theorem builder_writes_destination (fuel : Nat) (l r : Node) (args : List Node)
+    (ss : List Stmt) (h : ctx.structToStruct fuel l r args = .ok ss)
+    (evalSrc : Node → Node → V) (lit : String → Node → V) :
+    ∀ w ∈ writesList evalSrc lit ss, Reach ctx l w.1 := by
+  intro w hw
+  have hc := structToStruct_covered ctx fuel l r args ss h
+  have : w.1 ∈ marksList ss :=
+    (writesList_sublist evalSrc lit ss).subset (List.mem_map_of_mem hw)
+  exact marks_reachable ctx fuel l ss hc w.1 this
+
+/-- a member reached from `l` lies strictly below `l` -/
+theorem reach_below {l m : Node} (h : Reach ctx l m) : anc l m = true ∧ m ≠ l := by
+  obtain ⟨v, hv, ha⟩ := reach_anc ctx h
+  obtain ⟨n, t, rfl⟩ := visited_is_field ctx hv
+  refine ⟨anc_trans (anc_field n t (anc_refl _)) ha, ?_⟩
+  intro he
+  subst he
+  have := anc_size ha
+  simp only [nsize] at this
+  omega
+
+/-- non-vacuity: the two-level example of `Props/Cover` has three writes, pairwise unrelated -/
+example : (match toyCtx.structToStruct 3 (.root "dst" 2) (.root "src" 4) [] with
+    | .ok ss => ((writesList (fun _ _ => 0) (fun _ _ => 1) ss).map fun w => w.1.assignExpr toyEnv)
+    | _ => []) = ["dst.In.X", "dst.N"] := by decide
 
 end Convergen.Props.C02
